@@ -6,12 +6,14 @@
      - compression writer: the block in progress is at most BLOCK bytes; the table of
        compressed sizes has between T/BLOCK - 1 and T/BLOCK entries after T bytes (one more
        after finalize): THIS table grows with the data, 4 bytes per BLOCK. *)
+From MLA Require Import Limit.
 From MLA Require Import Base Stream EncLayer EncWriter EncWriterProofs CompLayer CompLayerProofs CompWriterProofs MemSize.
 From Coq Require Import ZifyBool ZifyNat ZifyN.
 Open Scope N_scope.
 
 (* ---------- encryption writer ---------- *)
 Section EncW.
+  Context {LIM : Limit}.
   Variables CHUNK CIPHERBUF : N.
   Variable ks : N -> N -> N.
   Variable tagc : N -> bytes -> bytes.
@@ -78,6 +80,7 @@ End EncW.
 
 (* ---------- compression writer ---------- *)
 Section CompW.
+  Context {LIM : Limit}.
   Variable BLOCK : N.
   Variable comp : bytes -> bytes.
   Notation cw_write_aux := (cw_write_aux BLOCK comp).
@@ -196,8 +199,10 @@ Section CompW.
     cw_buffered w' = 0.
   Proof.
     unfold cw_finalize. destruct (cw_st w) as [|written cur|] eqn:Est.
-    - destruct (2 ^ 32 <=? len (footer_of (cw_sizes w) 0)); intros [= <-]. cbn [cw_sizes]. unfold cw_buffered. cbn. lia.
-    - destruct (2 ^ 32 <=? len (footer_of (cw_sizes w ++ [len (comp cur)]) written)); intros [= <-].
+    - destruct (lim <? len (footer_of (cw_sizes w) 0)); [discriminate|].
+      destruct (2 ^ 32 <=? len (footer_of (cw_sizes w) 0)); intros [= <-]. cbn [cw_sizes]. unfold cw_buffered. cbn. lia.
+    - destruct (lim <? len (footer_of (cw_sizes w ++ [len (comp cur)]) written)); [discriminate|].
+      destruct (2 ^ 32 <=? len (footer_of (cw_sizes w ++ [len (comp cur)]) written)); intros [= <-].
       cbn [cw_sizes]. unfold cw_buffered. cbn [cw_st]. rewrite len_app. change (len [len (comp cur)]) with 1. lia.
     - discriminate.
   Qed.
